@@ -4,7 +4,7 @@ answers; a gfapy.Error raised by an individual query is part of the answer ("!Cl
 a foreign exception propagates to the caller (C07)."""
 
 GROUPS = ["str", "fields", "validate", "clone_eq_diff", "link_tests", "alignment", "neighbourhood",
-          "groups", "collections", "finders", "topology", "linear_paths", "select"]
+          "groups", "collections", "finders", "topology", "linear_paths", "select", "copy_edits", "converted_edits"]
 
 
 def ans(gfapy, x, depth=0):
@@ -99,6 +99,62 @@ def run(gfapy, gfa, group):
                     Q("df%d.%d" % (i, j), lambda: l.diff(m))
                     Q("ds%d.%d" % (i, j), lambda: l.diffscript(m, "x"))
             Q("eqs%d" % i, lambda: l == "zz")
+    elif group == "copy_edits":
+        # whatever is done to a copy (clone, complement) leaves the Gfa and the line it came from alone
+        for i, l in enumerate(lines):
+            if l.record_type == "H" or l.virtual:
+                continue
+            for how in ("clone", "complement"):
+                if how == "complement" and l.record_type != "L":
+                    continue
+                def edit():
+                    c = l.clone() if how == "clone" else l.complement()
+                    res = []
+                    for step in (lambda: c.set("zz", 7), lambda: c.set("zz", "s"), lambda: c.delete("zz"),
+                                 lambda: [c.delete(t) for t in list(c.tagnames)],
+                                 lambda: c.set_datatype("yy", "A"), lambda: c.set("yy", "q"),
+                                 lambda: [c.set(f, c.get(f)) for f in c.positional_fieldnames],
+                                 lambda: [c.set(f, c.field_to_s(f)) for f in c.positional_fieldnames],
+                                 lambda: c.disconnect()):
+                        try:
+                            step()
+                            res.append("ok")
+                        except gfapy.Error as e:
+                            res.append("!" + type(e).__name__)
+                    try:
+                        res.append(str(c))
+                    except gfapy.Error as e:
+                        res.append("!" + type(e).__name__)
+                    return res
+                Q("%s%d" % (how, i), edit)
+    elif group == "converted_edits":
+        # a converted Gfa is a new document: editing it does not reach the one it was made from
+        for how in ("to_gfa1", "to_gfa2"):
+            if gfa.version not in ("gfa1", "gfa2"):
+                continue
+            # by design the conversion to GFA2 gives an unnamed link/containment of the SOURCE an ID tag
+            # (C06, "edge identifiers"): the source is compared only when nothing is left to be named
+            if how == "to_gfa2" and gfa.version == "gfa1" and \
+                    any(not x.get("ID") for x in list(gfa.dovetails) + list(gfa.containments)):
+                continue
+            def conv():
+                h = getattr(gfa, how)()
+                res = [str(h)]
+                if h is gfa:          # documented: a Gfa of that version is returned itself
+                    return res
+                for step in (lambda: [x.set("zz", 1) for x in h.lines if x.record_type not in ("#",)],
+                             lambda: [x.delete(t) for x in h.lines for t in list(x.tagnames)],
+                             lambda: h.header.add("zq", 2),
+                             lambda: [h.rm(x) for x in list(h.segments)[:1]],
+                             lambda: [setattr(x, "name", str(x.name) + "_r") for x in list(h.segments)],
+                             lambda: [h.rm(x) for x in list(h.lines) if x.record_type not in ("H",)]):
+                    try:
+                        step()
+                        res.append("ok")
+                    except gfapy.Error as e:
+                        res.append("!" + type(e).__name__)
+                return res
+            Q(how, conv)
     elif group == "link_tests":
         links = [l for l in lines if l.record_type == "L"]
         edges = [l for l in lines if l.record_type in ("L", "C", "E")]
